@@ -18,7 +18,7 @@ var c16Amounts = []string{"1", "7", "8", "9", "9223372036854775807", "9223372036
 
 func c16Menu(w *mintops.W) []string {
 	var ops []string
-	if len(w.Quotes) < 4 {
+	if len(w.Quotes) < 5 {
 		for _, a := range c16Amounts {
 			ops = append(ops, "mq|"+a)
 		}
